@@ -209,6 +209,8 @@ pub trait Sampler: Send + Sync {
     fn d(&self) -> usize;
     fn sample_x(&self, point: &[u64], ed: &EdgeData, st: &Settings) -> Outcome;
     fn sample_x_f64(&self, point: &[u64], ed: &EdgeData, st: &Settings) -> Outcome;
+    /// the same call with the precision-carrying scalar `SimP` at `prec` bits
+    fn sample_x_p(&self, point: &[u64], ed: &EdgeData, st: &Settings, prec: u8) -> Outcome;
     fn sample_rng(&self, rng: &mut SimRng, ed: &EdgeData, st: &Settings) -> Outcome;
     fn sample_rng_f64(&self, rng: &mut SimRng, ed: &EdgeData, st: &Settings) -> Outcome;
     fn getters(&self) -> Outcome;
@@ -286,6 +288,35 @@ impl<const D: usize> Sampler for SampleGenerator<D> {
     }
     fn sample_x_f64(&self, point: &[u64], ed: &EdgeData, st: &Settings) -> Outcome {
         do_sample_x::<f64, D>(self, point, ed, st)
+    }
+    fn sample_x_p(&self, point: &[u64], ed: &EdgeData, st: &Settings, prec: u8) -> Outcome {
+        use crate::simp::SimP;
+        let pt: Vec<SimP> = point.iter().map(|&b| SimP::new(f64::from_bits(b), prec)).collect();
+        let edv: Vec<(Option<SimP>, Vector<SimP, D>)> = ed
+            .iter()
+            .map(|(m, sft)| {
+                let arr: [SimP; D] = std::array::from_fn(|i| SimP::new(f64::from_bits(*sft.get(i).unwrap_or(&0)), prec));
+                (m.map(|b| SimP::new(f64::from_bits(b), prec)), Vector::from_array(arr))
+            })
+            .collect();
+        let real = st.to_real();
+        match catch_unwind(AssertUnwindSafe(|| call_sample!(self, &pt, edv, &real))) {
+            Ok(Ok(r)) => {
+                let mut core = Vec::new();
+                core.push(r.loop_momenta.len() as u64);
+                for v in &r.loop_momenta {
+                    for i in 0..D {
+                        core.push(v[i].v.to_bits());
+                    }
+                }
+                for x in [&r.u_trop, &r.v_trop, &r.u, &r.v, &r.jacobian] {
+                    core.push(x.v.to_bits());
+                }
+                Outcome::Sample { core, meta: None }
+            }
+            Ok(Err(e)) => Outcome::Err(format!("{:?}", e)),
+            Err(p) => panic_msg(p),
+        }
     }
     fn sample_rng(&self, rng: &mut SimRng, ed: &EdgeData, st: &Settings) -> Outcome {
         do_sample_rng::<SimF, D>(self, rng, ed, st)
